@@ -7,7 +7,7 @@ from ..model import Program, AnalysisError, own_nodes, norm, names_in, FuncInfo
 from ..cfg import cfg_of
 from ..guards import Env, walk, collect_atoms
 from ..report import Report
-from ..util import callee_last
+from ..util import callee_last, expand_local_calls
 
 MU = 'fggs.multi'
 CMP_BOTH = {'equal', 'allclose', 'sub', 'isclose'}
@@ -41,7 +41,7 @@ def run(prog: Program, rep: Report, tier: str) -> None:
     n = 0
     for f in targets:
         n += region_coverage(rep, f)
-    rep.floor('C13-D1 loops', n, 4)
+    rep.floor('C13-D1 loops', n, 2)
     reference_operand(rep, prog)
 
 
@@ -70,11 +70,16 @@ def region_coverage(rep: Report, f: FuncInfo) -> int:
         def compares(n: int, kinds: Set[str], need_other: bool) -> bool:
             nd = cfg.nodes[n]
             es = [nd.expr] if nd.kind in ('test',) else [nd.stmt] if nd.kind in ('stmt', 'return') else []
-            for e in es:
+            def has(e: ast.AST) -> bool:
                 for x in ast.walk(e):
                     if isinstance(x, ast.Call) and isinstance(x.func, ast.Attribute) and x.func.attr in kinds and norm(x.func.value).split('.')[0].split('(')[0] == t:
                         if not need_other or any(norm(a) == f"{opp}[{k}]" for a in x.args):
                             return True
+                return False
+            for e in es:
+                # the comparison may be reached through a local helper (a closure picked by the tolerance test): every definition counts
+                if all(has(alt) for alt in expand_local_calls(f.node, e)):
+                    return True
             return False
         for present in (True, False):
             env = Env(atoms={atom: present})
@@ -120,7 +125,7 @@ def region_coverage(rep: Report, f: FuncInfo) -> int:
                f"regions with a loop: {sorted(regs)}" + (f"; no loop examines: {sorted(missing)}" if missing else ''))
     # the tolerance is honoured: approximate comparisons receive atol derived from the `tol` parameter and rtol == 0
     if 'tol' in f.param_names():
-        for c in [x for x in own_nodes(f.node) if isinstance(x, ast.Call) and isinstance(x.func, ast.Attribute) and x.func.attr in ('allclose', 'allclose_default')]:
+        for c in [x for x in ast.walk(f.node) if isinstance(x, ast.Call) and isinstance(x.func, ast.Attribute) and x.func.attr in ('allclose', 'allclose_default')]:
             kw = {k.arg: k.value for k in c.keywords}
             ok = 'atol' in kw and 'tol' in names_in(kw['atol']) and isinstance(kw.get('rtol'), ast.Constant) and kw['rtol'].value == 0
             rep.ob('C13-D1 tolerance', f.fq(), norm(c)[:80], f.loc(c), ok,
